@@ -1066,7 +1066,27 @@ impl<'a, 'b> Gen<'a, 'b> {
                     let k = forms.len();
                     let (mk, nm) = (format!("mk-add{}", k), format!("redef{}", k));
                     let (a, b) = (self.ch.range(0, 9) as i32, self.ch.range(10, 19) as i32);
-                    if self.ch.chance(2, 3) {
+                    if self.ch.chance(1, 4) {
+                        // a closure made by a call (its frame is not the global one) reads a global variable and calls a
+                        // global procedure; both are re-defined at top level between two calls of the same closure
+                        let (gv, gf, user) = (format!("factor{}", k), format!("scale{}", k), format!("use{}", k));
+                        forms.push(Form::Define(Def { name: gv.clone(), value: Expr::Int(a), sugar: false }));
+                        forms.push(Form::Define(Def { name: gf.clone(), value: Expr::Lambda(Formals { fixed: vec!["x".into()], rest: None }, body1(app("*", vec![var("x"), Expr::Int(2)]))), sugar: self.ch.chance(1, 2) }));
+                        forms.push(Form::Define(Def {
+                            name: mk.clone(),
+                            value: Expr::Lambda(
+                                Formals { fixed: vec!["n".into()], rest: None },
+                                body1(Expr::Lambda(Formals { fixed: vec!["x".into()], rest: None }, body1(app("list", vec![app("+", vec![var("x"), var("n"), var(&gv)]), app(&gf, vec![var("x")])])))),
+                            ),
+                            sugar: self.ch.chance(1, 2),
+                        }));
+                        forms.push(Form::Define(Def { name: user.clone(), value: app(&mk, vec![Expr::Int(1)]), sugar: false }));
+                        forms.push(Form::Expr(app(&user, vec![Expr::Int(100)])));
+                        forms.push(Form::Define(Def { name: gv.clone(), value: Expr::Int(b), sugar: false }));
+                        forms.push(Form::Expr(app(&user, vec![Expr::Int(100)])));
+                        forms.push(Form::Define(Def { name: gf.clone(), value: Expr::Lambda(Formals { fixed: vec!["x".into()], rest: None }, body1(app("*", vec![var("x"), Expr::Int(3)]))), sugar: self.ch.chance(1, 2) }));
+                        forms.push(Form::Expr(app(&user, vec![Expr::Int(100)])));
+                    } else if self.ch.chance(2, 3) {
                         forms.push(Form::Define(Def {
                             name: mk.clone(),
                             value: Expr::Lambda(
